@@ -278,7 +278,7 @@ def current_database_schema(expression: exp.Expression, has_database: bool, has_
         null = exp.Cast(this=exp.Null(), to=exp.DataType(this=exp.DataType.Type.VARCHAR, nested=False, prefix=False))
         if isinstance(expression.parent, exp.Select):
             # keep the name the column has when the function is evaluated
-            return exp.alias_(null, f"{expression.this}()", quoted=True)
+            return exp.alias_(null, f"{expression.this.lower()}()", quoted=True)
         return null
 
     return expression
